@@ -16,7 +16,10 @@ C12Cases ==
   \cup {[kind |-> "method", rule |-> r, pl |-> "top", sur |-> s] : r \in MethodRules, s \in Surrounds}
   \cup {[kind |-> "twin", rule |-> t, pl |-> "top", sur |-> "plain"] : t \in Twins}
 
+\* (and every codec annotation on every cardinality it is accepted on - the single-field schemas of C13)
 C14Cases == {[kind |-> "c14", rule |-> t, pl |-> lay, sur |-> "plain"] : t \in CodecFeatures, lay \in Layouts}
+            \cup {[kind |-> "c13s", rule |-> t, pl |-> "single", sur |-> "plain"] :
+                     t \in {x \in C13Singles : x[1] \notin {"query", "path", "plain"}}}
 C15Cases == {[kind |-> "c15", rule |-> t, pl |-> "multi", sur |-> "plain"] : t \in {"T_plain", "T_int64", "T_enum_custom", "T_nullable", "T_flatten", "T_oneof", "T_unwrap_mapvalue"}}
 \* a definition that breaks a documented rule is a well-formed request too: the answer is then an
 \* error message (or files, where a plugin does not look), never a crash
@@ -29,10 +32,12 @@ C13Cases == {[kind |-> "c13s", rule |-> t, pl |-> "single", sur |-> "plain"] : t
             \cup {[kind |-> "c13x", rule |-> sh, pl |-> "shape", sur |-> "plain"] : sh \in C13Shapes}
             \cup {[kind |-> "c13m", rule |-> t, pl |-> "method", sur |-> "plain"] : t \in C13MethodShapes}
             \cup {[kind |-> "twin", rule |-> t, pl |-> "top", sur |-> "plain"] : t \in Twins}
+            \* the nestings of the mock family (every package is also built with the optional mock server)
+            \cup {[kind |-> "c20", rule |-> <<"string", "one", "parsable">>, pl |-> n, sur |-> "plain"] : n \in MockNestings \ {"xpkg"}}
 
 \* (path_braces: templates whose braces do not form variables are answered, C16 - what a document should say
 \* about them is not defined, they are outside "accepted schemas")
-C18Cases == {[kind |-> "c16", rule |-> sh, pl |-> "plain", sur |-> "plain"] : sh \in Shapes \ {"no_go_package", "long_names", "svc_no_methods", "path_braces"}}
+C18Cases == {[kind |-> "c16", rule |-> sh, pl |-> "plain", sur |-> "plain"] : sh \in Shapes \ {"no_go_package", "long_names", "svc_no_methods", "path_braces", "same_named_services"}}
             \cup {[kind |-> "twin", rule |-> t, pl |-> "top", sur |-> "plain"] : t \in Twins}
             \cup {[kind |-> "c18", rule |-> sh, pl |-> "doc", sur |-> "plain"] : sh \in C18Shapes}
 
